@@ -118,11 +118,23 @@ func init() {
 				}
 			}
 		},
-		Cases: func(c *mon.Ctx) int { return nSeeds + c.Pick(30000, 600000) + c09OwnKeyCases },
+		Cases: func(c *mon.Ctx) int { return nSeeds + c.Pick(30000, 600000) + c09OwnKeyCases + c09Directed(c) },
 		RunCase: func(c *mon.Ctx, i int) {
 			var o *mon.Obj
 			var desc string
-			if base := nSeeds + c.Pick(30000, 600000); i >= base {
+			if base := nSeeds + c.Pick(30000, 600000); i >= base+c09OwnKeyCases {
+				// directed families: the small ones completely (among them every key type under every signature
+				// algorithm - lints that look at the signature FIELD have most to decide there), a hashed sample of the
+				// two big ones
+				k := directedPick(c, i-base-c09OwnKeyCases)
+				if k < 0 {
+					return
+				}
+				o, desc = directedCase(c, k)
+				if o != nil {
+					c.R.Count("directed_objects", 1)
+				}
+			} else if i >= base {
 				o, desc = c09OwnKey(i - base)
 			} else {
 				o, desc, _ = unionCase(c, i, &c09Mut)
@@ -152,6 +164,7 @@ func init() {
 				gates = append(gates, "probe-lint part (own process) compared too little")
 			}
 			ev.Coverage["signature_algorithms_seen"] = r.SetKeys("sig_algs")
+			ev.Coverage["directed_family_objects"] = r.Counters["directed_objects"]
 			ev.Coverage["variants_compared"] = r.Sets["variants_compared"]
 			if r.Counters["preissuance_pairs"] < 4 {
 				gates = append(gates, "pre-issuance pairs not compared")
@@ -173,6 +186,10 @@ func init() {
 // neither} x signature algorithm field.
 
 const c09OwnKeyCases = 5 * 4 * 2
+
+func c09Directed(c *mon.Ctx) int {
+	return directedSmallTail(c) + (directedCount(c)-directedSmallTail(c))/c.Pick(60, 6)
+}
 
 func c09OwnKey(k int) (*mon.Obj, string) {
 	key := gen.DefaultKey()
